@@ -65,6 +65,7 @@ class Emitter:
         self.global_fwd = []
         self.ambiguous_literals = set()
         self.entry_names = set()
+        self.typed_alloc_enabled = False   # opt-in per harness (spec "typed_alloc": true): CBMC's byte-wise copies into typed pointer arrays proved unreliable
 
     # ------------------------------------------------------------------ scaling
     def nb(self, n):
@@ -709,7 +710,7 @@ class Emitter:
                         alloc_res[I['res']] = av[1]
                     elif av[0] == 'local' and av[1] in scaled_by:
                         alloc_res[I['res']] = scaled_by[av[1]]
-        if alloc_res:
+        if alloc_res and self.typed_alloc_enabled:
             for label, ins in blocks:
                 for I in ins:
                     if I['op'] == 'cast' and I['cast'] == 'bitcast' and I['src'][1][0] == 'local' and I['src'][1][1] in alloc_res \
@@ -1434,6 +1435,7 @@ def run(a):
     spec = json.load(open(a.spec)) if a.spec else {}
     em = Emitter(mod, a.scale)
     em.replace = build_replace(mod, spec)
+    em.typed_alloc_enabled = bool(spec.get('typed_alloc'))
     rt_provided = set(spec.get('rt_provided', []))
     rtdir = os.path.join(os.path.dirname(os.path.dirname(os.path.abspath(__file__))), 'rt')
     c_includes = ['ir2c_rt_impl.c', 'libstdcxx.c'] + spec.get('c_include', [])
